@@ -189,6 +189,139 @@ func junk(r *gen.Rand, depth int) []byte {
 	return b
 }
 
+func last32(b []byte) []byte {
+	if len(b) > 32 {
+		return b[len(b)-32:]
+	}
+	return b
+}
+
+func cloneInner(n *types.InnerNode) *types.InnerNode {
+	return &types.InnerNode{Height: n.Height, Size: n.Size,
+		LeftHash: append([]byte(nil), n.LeftHash...), RightHash: append([]byte(nil), n.RightHash...)}
+}
+
+// Forged proofs whose branch records carry BOTH child hashes (or none).  The store never emits such a record, but
+// a verifier gets the proof from the network.  From the honest proof of (k, v) the harness folds the hashes level by
+// level itself (types.InnerNode.Hash, not proof.go) and fills the empty side of the record at level j with the hash
+// that belongs there: that is the node's own database record (for the last level: the root's record).  Forms:
+//   suffix : [full_j] ++ honest[j+1:]           (j = last: the root record alone)
+//   inplace: honest[:j] ++ [full_j] ++ honest[j+1:]
+//   none   : the record at level j with both sides empty (in place / as a suffix)
+//   wrong  : the empty side filled with something else (the sibling, another level's hash, random bytes), sides swapped
+// Each is offered for the honest pair and for pairs present in the state (outcome compared with the model only: a
+// record with a filled right side is a perfectly good proof for the leaf on the right), and for pairs that are NOT
+// in the state (absent key, present key with another value, another key with this value): must be rejected.
+func fullBranchForgeries(e *mavlh.Eng, r *gen.Rand, cfg mavlh.Cfg, ver version, kg *mavlh.KeyGen) {
+	keys := ver.snap.Keys()
+	if len(keys) < 2 {
+		return
+	}
+	for n := 0; n < 2; n++ {
+		ks := keys[r.Intn(len(keys))]
+		k, v := []byte(ks), ver.snap.M[ks]
+		proof, exists, _ := e.Proof(ver.root, k)
+		var p types.MAVLProof
+		if !exists || types.Decode(proof, &p) != nil || len(p.InnerNodes) == 0 {
+			continue
+		}
+		nodes := p.InnerNodes
+		hs := [][]byte{(&types.LeafNode{Key: k, Value: v, Height: 0, Size: 1}).Hash()}
+		full := make([]*types.InnerNode, len(nodes))
+		for j, b := range nodes {
+			f := cloneInner(b)
+			if len(b.LeftHash) == 0 {
+				f.LeftHash = hs[j]
+			} else {
+				f.RightHash = hs[j]
+			}
+			full[j] = f
+			hs = append(hs, f.Hash())
+		}
+		if !bytes.Equal(hs[len(nodes)], last32(ver.root)) {
+			out.Pred("C03|harness|own-fold-of-honest-proof-misses-root", fmt.Sprintf("root=%x key=%x proof=%x", ver.root, k, proof))
+			continue
+		}
+		build := func(j int, rec *types.InnerNode, inplace bool) []byte {
+			var ins []*types.InnerNode
+			if inplace {
+				for _, b := range nodes[:j] {
+					ins = append(ins, cloneInner(b))
+				}
+			}
+			ins = append(ins, rec)
+			for _, b := range nodes[j+1:] {
+				ins = append(ins, cloneInner(b))
+			}
+			return types.Encode(&types.MAVLProof{InnerNodes: ins})
+		}
+		offer := func(forged []byte, kind string) {
+			out.Stat("forged_"+kind, 1)
+			verify(e, ver.root, k, v, forged, kind+"-honest-pair")
+			switch r.Intn(5) {
+			case 0: // a key that is not in the state
+				ak := append([]byte("absent-"), r.Bytes(r.Range(1, 20))...)
+				if _, present := ver.snap.M[string(ak)]; !present {
+					mustReject(e, ver.root, ak, r.Bytes(r.Range(0, 20)), forged, kind)
+				}
+			case 1: // the key with another value
+				if ov := mutBytes(r, v); !bytes.Equal(ov, v) {
+					mustReject(e, ver.root, k, ov, forged, kind)
+				}
+			case 2: // another present key with this value
+				o := keys[r.Intn(len(keys))]
+				if !bytes.Equal(ver.snap.M[o], v) {
+					mustReject(e, ver.root, []byte(o), v, forged, kind)
+				}
+			case 3: // another present pair: may be accepted legitimately, compared with the model
+				o := keys[r.Intn(len(keys))]
+				verify(e, ver.root, []byte(o), ver.snap.M[o], forged, kind+"-present-pair")
+			default: // a generated key (present or not)
+				gk := kg.Key()
+				gv := r.Bytes(r.Range(0, 8))
+				if cur, present := ver.snap.M[string(gk)]; !present || !bytes.Equal(cur, gv) {
+					mustReject(e, ver.root, gk, gv, forged, kind)
+				}
+			}
+		}
+		const both = "forged-proof-branch-with-both-child-hashes"
+		const none = "forged-proof-branch-with-no-child-hash"
+		for j := range nodes {
+			offer(build(j, cloneInner(full[j]), false), both)
+			offer(build(j, cloneInner(full[j]), true), both)
+			if r.Chance(1, 2) {
+				e0 := cloneInner(nodes[j])
+				e0.LeftHash, e0.RightHash = nil, nil
+				offer(build(j, e0, r.Bool()), none)
+			}
+			if r.Chance(1, 2) {
+				w := cloneInner(full[j])
+				side := &w.LeftHash
+				if len(nodes[j].LeftHash) != 0 {
+					side = &w.RightHash
+				}
+				switch r.Intn(5) {
+				case 0: // the sibling on both sides
+					if len(nodes[j].LeftHash) != 0 {
+						*side = append([]byte(nil), w.LeftHash...)
+					} else {
+						*side = append([]byte(nil), w.RightHash...)
+					}
+				case 1:
+					*side = append([]byte(nil), hs[r.Intn(len(hs))]...)
+				case 2:
+					*side = r.Bytes(32)
+				case 3:
+					w.LeftHash, w.RightHash = w.RightHash, w.LeftHash
+				default: // the right hash behind a key prefix (InnerNode.Hash keeps the last 32 bytes)
+					*side = append([]byte(fmt.Sprintf("_mb_-%010d-", r.Intn(100))), hs[j]...)
+				}
+				offer(build(j, w, r.Bool()), both)
+			}
+		}
+	}
+}
+
 type version struct {
 	root []byte
 	snap *mavlh.Snap
@@ -321,6 +454,9 @@ func oneTree(e *mavlh.Eng, r *gen.Rand, cfg mavlh.Cfg) {
 				}
 			}
 		}
+	}
+	if len(vs) > 0 {
+		fullBranchForgeries(e, r, cfg, vs[r.Intn(len(vs))], kg)
 	}
 	// Proof.Verify directly on the structure returned by Tree.ConstructProof
 	for _, ver := range vs {
